@@ -189,6 +189,12 @@ func (r *SeqRun) recheckMarks() *Violation {
 				dir := "out"
 				if strings.Contains(k, " in ") {
 					dir = "in"
+					// incoming answers of a target whose referencing entities used several (predicate,
+					// dataset) combinations are subject to the open finding KF-C03-1 and are not stable
+					if rq, ok := r.queryByKey(k); ok && inverseKnownAffected(r.M, rq) {
+						r.Stats["known:relations|in:extra:multi-relation-history"]++
+						continue
+					}
 				}
 				return viol("C06", "history", "query-changed:"+dir+":"+mk.Kind, "query [%s] as of instant %d (%s, recorded at step %d) now answers {%s}; at that instant the current-state query answered {%s}", k, mk.T, mk.Kind, mk.Step, got, want)
 			}
@@ -275,4 +281,42 @@ func (r *SeqRun) continuePaged() *Violation {
 	}
 	r.Paged = nil
 	return nil
+}
+
+func (r *SeqRun) queryByKey(k string) (relQuery, bool) {
+	for _, q := range r.timeQueries() {
+		if q.String() == k {
+			return q, true
+		}
+	}
+	return relQuery{}, false
+}
+
+// inverseKnownAffected tells whether some entity has, over the history of the in-scope datasets,
+// referenced the query's start entity through two or more (predicate, dataset) combinations.
+func inverseKnownAffected(m *Model, q relQuery) bool {
+	target := markerToFull(q.Start)
+	pred := q.Pred
+	if pred != "*" {
+		pred = markerToFull(pred)
+	}
+	combos := map[string]map[string]bool{}
+	for _, d := range m.inScope(q.Scope) {
+		for _, ver := range d.Versions {
+			for _, pt := range refTargets(ver.C) {
+				if pt[1] == target && (pred == "*" || pred == pt[0]) {
+					if combos[ver.C.ID] == nil {
+						combos[ver.C.ID] = map[string]bool{}
+					}
+					combos[ver.C.ID][pt[0]+"|"+d.Name] = true
+				}
+			}
+		}
+	}
+	for _, c := range combos {
+		if len(c) >= 2 {
+			return true
+		}
+	}
+	return false
 }
